@@ -217,8 +217,11 @@ def c11_1(ctx: Ctx):
                             ctx.assume(f"{q}: first match over `{src(gen.iter)}` - {au}")
                             ctx.ok(fi, n, f"first match over `{src(gen.iter)[:50]}`: key assumed unique", au, key=k, nontrivial=False)
                         else:
-                            ctx.fail(fi, n, f"first match over `{src(gen.iter)[:50]}`",
-                                     "next(...) over an unordered collection: when several elements match, which one is returned changes from run to run", key=k)
+                            # the filter is part of the identity of the finding: a wider filter matches more elements
+                            tv = src(gen.target)
+                            filt = " and ".join(sorted(re.sub(rf"\b{re.escape(tv)}\b", "_", src(f)) for f in gen.ifs)) if isinstance(gen.target, ast.Name) else " and ".join(sorted(src(f) for f in gen.ifs))
+                            ctx.fail(fi, n, f"first match over `{src(gen.iter)[:50]}` where `{filt[:70]}`",
+                                     "next(...) over an unordered collection: when several elements match, which one is returned changes from run to run", key=k + f"::if::{filt[:90]}")
                     elif consumer in ("min", "max", "sorted"):
                         pass  # handled at the call
                     else:
